@@ -29,9 +29,11 @@ def build(case, pattern=None):
     s = Solver()
     n = case["n"]
     form = case["form"]
-    kw = {"acyclic": case["acyclic"]}
+    # "intflags": options given as 1 / 0 instead of True / False (callers rely on truthiness, not identity)
+    flag = int if case.get("intflags") else (lambda b: b)
+    kw = {"acyclic": flag(case["acyclic"])}
     if case["ugp"] != "default":
-        kw["use_graph_primitive"] = case["ugp"]
+        kw["use_graph_primitive"] = flag(case["ugp"])
     if form == "grid":
         h, w = case["shape"]
         a = s.bool_array((h, w))
@@ -170,6 +172,11 @@ def cases_for(tier):
                             if n == 5 and (ugp, cfg) not in ((False, False),):
                                 continue
                             out.append({"form": form, "n": n, "edges": es, "acyclic": acyclic, "ugp": ugp, "cfg": cfg})
+    for n in (2, 3):
+        for edges in graphref.simple_graphs(n):
+            for acyclic in (False, True):
+                for ugp in (False, True):
+                    out.append({"form": "vars", "n": n, "edges": list(edges), "acyclic": acyclic, "ugp": ugp, "cfg": False, "intflags": True})
     # multigraphs: parallel edges (same and opposite orientation) do not change connectivity, only trees
     for n in (2, 3):
         for edges in graphref.multigraphs(n, 4 if n == 2 else 4, 2 if n == 3 else 3):
@@ -200,6 +207,16 @@ def cases_for(tier):
         for acyclic in (False, True):
             for ugp in (False, True):
                 out.append({"form": "vars", "n": 6, "edges": es, "acyclic": acyclic, "ugp": ugp, "cfg": False, "name": name})
+    # structured mid-sized graphs (shared vertices between cycles, degree-4 trees, isolated vertices, cubic graphs), all 2^n patterns
+    for name, n, es in graphref.zoo():
+        if tier == "quick" and n > 7:
+            continue
+        relab = name.endswith("~relabelled")
+        for acyclic in (False, True):
+            for ugp in (False, True):
+                if tier == "quick" and ugp != relab:
+                    continue
+                out.append({"form": "vars", "n": n, "edges": es, "acyclic": acyclic, "ugp": ugp, "cfg": False, "name": name})
     maxcells = 8 if tier == "quick" else 12
     for h, w in graphref.grid_shapes(maxcells):
         for acyclic in (False, True):
